@@ -21,18 +21,18 @@ template <class T> T make_malloc(T t) { return t; }
 }}
 namespace st {
 struct ctx {};
-using handler_t = sim::aux::function<void(int)>;
+
 struct sock {
-	ctx m_ctx; handler_t m_slot; int m_x = 0;
-	void good_owned_post(handler_t h) { boost::asio::post(m_ctx, sim::aux::make_malloc(std::bind(std::move(h), 1))); }
-	void good_own_slot(handler_t h) { m_slot = std::move(h); }
+	ctx m_ctx; sim::aux::function<void(int)> m_slot; int m_x = 0;
+	void good_owned_post(sim::aux::function<void(int)> h) { boost::asio::post(m_ctx, sim::aux::make_malloc(std::bind(std::move(h), 1))); }
+	void good_own_slot(sim::aux::function<void(int)> h) { m_slot = std::move(h); }
 	void good_abort() { if (m_slot) boost::asio::post(m_ctx, std::bind(std::move(m_slot), 2)); m_slot = nullptr; }
 	void bad_borrowed() { if (m_slot) boost::asio::post(m_ctx, std::bind(std::ref(m_slot), 2)); m_slot = nullptr; }
-	void bad_copied(handler_t h) { boost::asio::post(m_ctx, std::bind(h, 1)); }
-	void bad_dispatch(handler_t h) { boost::asio::dispatch(m_ctx, std::bind(std::move(h), 1)); }
-	void bad_inline(handler_t h) { h(3); }
+	void bad_copied(sim::aux::function<void(int)> h) { boost::asio::post(m_ctx, std::bind(h, 1)); }
+	void bad_dispatch(sim::aux::function<void(int)> h) { boost::asio::dispatch(m_ctx, std::bind(std::move(h), 1)); }
+	void bad_inline(sim::aux::function<void(int)> h) { h(3); }
 	void bad_silent_discard() { m_slot = nullptr; }
-	void bad_overwrite(handler_t h) { m_slot = std::move(h); }   // no abort of the outstanding handler first (public entry)
+	void bad_overwrite(sim::aux::function<void(int)> h) { m_slot = std::move(h); }   // no abort of the outstanding handler first (public entry)
 	void bad_posted_this() { boost::asio::post(m_ctx, [this] { m_x = 1; }); }
 	void good_posted_value() { int x = m_x; boost::asio::post(m_ctx, [x] { (void)x; }); }
 };
